@@ -160,7 +160,8 @@ def run(rep, tier):
     rep.assumptions = ["consequence is refuted only by an explicit counter-interpretation: finite standard models with |'a| <= 2 (tier E) or "
                        "integer/half-integer grid points in [-2,2] with exact rational arithmetic (tier A); steps outside both vocabularies "
                        "are not examined",
-                       "context rules (refl, bind, let, onepoint, sko_ex, sko_forall) are recorded but not judged",
+                       "context rules refl, bind, sko_ex, sko_forall are recorded but not judged; onepoint (closed conclusion, no premise consulted) is judged as "
+                       "it stands; let is judged with the universal closure of the variables whose equations it discharges",
                        "premises are sequents: the result sequent must hold wherever all premise sequents hold",
                        "TLC/SANY, the structural codec harness/codec.py, CPython"]
     vec, prf = wd / "vectors.ndjson", wd / "proofs.ndjson"
@@ -176,7 +177,11 @@ def run(rep, tier):
                     ("hypotheses_ignored",
                      [("C18_Sem.tla", "SeqHolds(sq, va, ta) == (\\A k \\in 1..Len(sq.h) : EvalX(sq.h[k], va, <<>>, ta)) => EvalX(sq.c, va, <<>>, ta)",
                        "SeqHolds(sq, va, ta) == EvalX(sq.c, va, <<>>, ta)")],
-                     ["NearMissRefuted", "RefSound"])]
+                     ["NearMissRefuted", "RefSound"]),
+                    ("let_without_its_binding_equation",
+                     [("C18_Rules.tla", 'I("verit_let", <<PS(Eqa(ca, cb)), PH(<<Eqa(w0, cb)>>, Iff(F1(pP, w0), F1(pP, cb)))>>,',
+                       'I("verit_let", <<PH(<<Eqa(w0, cb)>>, Iff(F1(pP, w0), F1(pP, cb)))>>,')],
+                     ["RefSound", "DbSound"])]
     with ThreadPoolExecutor(max_workers=2) as ex:
         f1 = ex.submit(model_check, "C18_Alethe", "C18_Alethe_%s.cfg" % sfx, wd=wd / "mc", workers=1 if quick else 2,
                        env={"VECTOR_FILE": vec, "PROOF_FILE": prf}, timeout=7200)
@@ -236,7 +241,7 @@ def replay(path):
         run_driver("c18", ["proofs", wd / "vec.ndjson", wd / "ev.ndjson"])
     else:
         vec = {"rule": e["rule"], "mut": e["mut"], "prems": e["prems"], "cl": e["cl"], "sizes": e["sizes"], "coeffs": e["coeffs"],
-               "inst": e["inst"], "ctx": e["ctx"]}
+               "inst": e["inst"], "ctx": e["ctx"], "names": e.get("names", [])}
         write_events(wd / "vec.ndjson", [vec])
         run_driver("c18", ["replay", wd / "vec.ndjson", wd / "ev.ndjson"])
     evs = read_events(wd / "ev.ndjson")
